@@ -326,11 +326,11 @@ def plan():
     q = ("quick", "thorough")
     obs = []
     for which in ("range", "size", "time-step", "time-samplerate", "frequency"):
-        for N in (1, 2, 3, 5, 8):
+        for N in (0, 1, 2, 3, 5, 8):
             for exact in (True, False):
-                if which == "size" and not exact:
+                if which == "size" and (not exact or N == 0):
                     continue
-                quick = (which == "range" and N in (1, 3, 8)) or (which != "range" and N == 3 and exact)
+                quick = (which == "range" and N in (0, 1, 3, 8)) or (which != "range" and N == 3 and exact)
                 obs.append(Ob("%s-N%d-%s" % (which, N, "whole" if exact else "frac"), ob_range_whole, "real", 600,
                               dict(N=N, which=which, exact=exact), q if quick else ("thorough",),
                               twins=("whole",) if exact else ("fractional",), twin_timeout=200))
@@ -355,7 +355,7 @@ INFO = dict(
         "get_coord_index",
         "soundevent.arrays.operations.set_value_at_pos",
     ],
-    bounds="range dimensions: start in [-1000, 1000], step in [1e-4, 1000], number of steps N in {1,2,3,5,8} with "
+    bounds="range dimensions: start in [-1000, 1000], step in [1e-4, 1000], number of steps N in {0,1,2,3,5,8} with "
     "stop = start + N*step exactly (whole) or plus a symbolic fraction of a step — exact real arithmetic; lookup: "
     "sorted axes of 1..4 labels, EVERY finite double for labels and query (IEEE-754, comparisons only); "
     "set_value_at_pos: 1x1..3x3 arrays, both dimension orders, cell / row / column addressing",
@@ -369,6 +369,6 @@ INFO = dict(
         "the IEEE lookup search (ieee-lookup-*) is a refutation search over the real create_range_dim + "
         "get_coord_index run on z3 Float64 terms: 'confirmed' there means every explored path is unsat, 'searched' "
         "means z3 returned unknown on some path (reported, not claimed)",
-        "N = 0 (create_range_dim(x, x, s) raises IndexError on the empty range)",
+
     ],
 )
